@@ -80,38 +80,81 @@ impl Report {
 }
 
 pub struct Ctx {
-    pub suites: Vec<Suite>,
+    pub metas: &'static [SuiteMeta],
+    /// same order as `metas`; `None` = not compiled into this build (`small` feature)
+    pub slots: Vec<Option<Suite>>,
     /// signatures listed as `known:` in KNOWN_FINDINGS.txt that still reproduce on this tree
     pub active_known: Vec<String>,
 }
 
 impl Ctx {
     pub fn new() -> Self {
+        let slots = crate::registry::all_suites();
+        let metas = crate::registry::META;
+        assert_eq!(slots.len(), metas.len(), "harness: registry tables out of sync");
+        for (m, s) in metas.iter().zip(slots.iter()) {
+            if let Some(s) = s {
+                assert!(m.name == s.info.name && m.bs == s.info.bs && m.has_dec == s.info.has_dec && m.key_len == s.info.key_len, "harness: META does not describe {}", s.info.name);
+                assert!(!m.is_toy || m.par == s.info.par, "harness: META width of {}", s.info.name);
+                for k in STREAM_KINDS_ALL {
+                    assert_eq!(m.has_stream(k), s.stream(k).is_some(), "harness: META streams of {}", s.info.name);
+                }
+                assert_eq!(m.has_cts(), !s.cts.is_empty(), "harness: META cts of {}", s.info.name);
+            }
+        }
         Ctx {
-            suites: crate::registry::all_suites(),
+            metas,
+            slots,
             active_known: Vec::new(),
         }
+    }
+    pub fn suites(&self) -> impl Iterator<Item = &Suite> {
+        self.slots.iter().filter_map(|s| s.as_ref())
     }
     pub fn known(&self, sig: &str) -> bool {
         self.active_known.iter().any(|s| s == sig)
     }
-    pub fn pick_suite<'a>(&'a self, t: &mut Tape<'_>, f: impl Fn(&Suite) -> bool) -> &'a Suite {
-        let v: Vec<&Suite> = self.suites.iter().filter(|s| f(s)).collect();
+    /// Choose a configuration among those whose static description satisfies `f`. The choice is a
+    /// function of the tape and the *full* table, so a tape means the same case in every build;
+    /// `None` = the chosen configuration is not compiled into this build.
+    pub fn pick_suite<'a>(&'a self, t: &mut Tape<'_>, f: impl Fn(&SuiteMeta) -> bool) -> Option<&'a Suite> {
+        let v: Vec<usize> = (0..self.metas.len()).filter(|i| f(&self.metas[*i])).collect();
         assert!(!v.is_empty(), "harness: no suite matches the filter");
-        v[t.idx(v.len())]
+        self.slots[v[t.idx(v.len())]].as_ref()
     }
     pub fn suite_named(&self, name: &str) -> Option<&Suite> {
-        self.suites.iter().find(|s| s.info.name == name)
+        self.suites().find(|s| s.info.name == name)
     }
-    /// the same toy block function with parallel width 1
+    fn width1_index(&self, bs: usize) -> Option<usize> {
+        self.metas.iter().position(|o| o.is_toy && o.has_dec && o.bs == bs && o.par == 1)
+    }
+    /// does the table contain the same toy block function with parallel width 1?
+    pub fn has_width1(&self, m: &SuiteMeta) -> bool {
+        m.is_toy && m.has_dec && self.width1_index(m.bs).is_some()
+    }
+    /// the same toy block function with parallel width 1 (if compiled into this build)
     pub fn width1_of(&self, s: &Suite) -> Option<&Suite> {
         if !s.info.is_toy || !s.info.has_dec {
             return None;
         }
-        self.suites
-            .iter()
-            .find(|o| o.info.is_toy && o.info.has_dec && o.info.bs == s.info.bs && o.info.par == 1)
+        self.slots[self.width1_index(s.info.bs)?].as_ref()
     }
+}
+
+/// `let suite = pick!(ctx, t, r, |m| filter);` - returns early (trivial pass) when the chosen
+/// configuration is not part of this build.
+#[macro_export]
+macro_rules! pick {
+    ($ctx:expr, $t:expr, $r:expr, $f:expr) => {
+        match $ctx.pick_suite($t, $f) {
+            Some(s) => s,
+            None => {
+                $r.label("config-not-in-this-build");
+                $r.nontrivial = false;
+                return Ok(());
+            }
+        }
+    };
 }
 
 // ---------------------------------------------------------------------------------------
